@@ -542,6 +542,14 @@ func (p *Profile) compatible(pb *Profile) error {
 // equalValueType returns true if the two value types are semantically
 // equal. It ignores the internal fields used during encode/decode.
 func equalValueType(st1, st2 *ValueType) bool {
+	// A missing value type is equivalent to an empty one (as in the parser).
+	var empty ValueType
+	if st1 == nil {
+		st1 = &empty
+	}
+	if st2 == nil {
+		st2 = &empty
+	}
 	return st1.Type == st2.Type && st1.Unit == st2.Unit
 }
 
